@@ -179,7 +179,8 @@ def clip (st en : Option Int) (e : Ev D) : Ev D :=
 
 /-- `get_events` with exact range arithmetic; order: timestamp descending, ties by id ascending
     unless the observed order is passed to the driver -/
-def getEvents (s : St D) (b : String) (limit : Int) (st en : Option Int) : Except Err (List (Ev D)) :=
+def getEvents (s : St D) (b : String) (limit : Int) (st en : Option Int)
+    (dec : Ev D → Ev D := id) : Except Err (List (Ev D)) :=
   if limit = 0 then .ok [] else
   match keyOf s b with
   | none => .error .keyError
@@ -187,7 +188,7 @@ def getEvents (s : St D) (b : String) (limit : Int) (st en : Option Int) : Excep
     let rows := (rowsOf s k).filter (inRange st en)
     let sorted := (sortBy (fun r => r.ts) rows.reverse).reverse
     let lim := if limit < 0 then sorted else sorted.take limit.toNat
-    .ok (lim.map (fun r => clip st en (toEv r)))
+    .ok (lim.map (fun r => clip st en (dec (toEv r))))
 
 def getEventcount (s : St D) (b : String) (st en : Option Int) : Except Err Nat :=
   match keyOf s b with
